@@ -45,11 +45,18 @@ class C14(Prop):
         yield {"gen": "table", "kind": "table"}
         for _ in range(200 if tier == "quick" else 2000):
             layout = {"records": [{"name": n, "desc": "", "seq": "A" * 50} for n in ("a", "b")]}
-            yield {"gen": "reverse", "kind": "reverse", "rows": gen_rows_over(rng, layout, rng.randint(0, 10))}
+            yield {"gen": "reverse", "kind": "reverse", "rows": gen_rows_over(rng, layout, rng.randint(0, 10)),
+                   "extra": gen_rows_over(rng, layout, rng.randint(1, 3))}
         for _ in range(150 if tier == "quick" else 2000):
             n = rng.choice([0, 1, 2, 3, 10, 40])
             alpha = rng.choice([F.RES_MIX, "ACGT", "".join(chr(c) for c in range(33, 127))])
             yield {"gen": "revcomp", "kind": "revcomp", "x": "".join(rng.choice(alpha) for _ in range(n))}
+        # long inputs (implementation thresholds): judged against the naive definition only, too long for a Coq literal
+        for n in ([2**20 + 3, 2**21 + 1] if tier == "quick" else [2**16 + 1, 2**20 - 1, 2**20 + 3, 2**21 + 1, 3 * 2**20 + 7, 2**23 + 5]):
+            r2 = __import__("random").Random(n)
+            block = "".join(r2.choice(F.RES_MIX) for _ in range(4099))
+            x = (block * (n // 4099 + 1))[:n]
+            yield {"gen": "revcomp/long", "kind": "revcomp", "x": x, "long": True}
         for _ in range(250 if tier == "quick" else 4000):
             layout = F.gen_fasta(rng, maxlen=30)
             w = layout["width"]
@@ -71,12 +78,26 @@ class C14(Prop):
             sc = Scaffold("s", [A.row_to_obj(r) for r in case["rows"]], original_name="o")
             r1 = sc.reverse()
             r2 = r1.reverse()
+            rev_rows0 = [A.obj_to_row(r) for r in r1.rows]
+            len0 = [sc.length, r1.length]
+            untouched0 = [A.obj_to_row(r) for r in sc.rows] == [list(r) for r in case["rows"]]
+            # reversal again after the scaffold has grown (a reversed copy must not be remembered)
+            extra = [A.row_to_obj(r) for r in case.get("extra", [])]
+            for e in extra:
+                sc.add_row(e)
+            r3 = sc.reverse()
+            for e in [A.row_to_obj(r) for r in case.get("extra", [])]:
+                r1.add_row(e)
+            r4 = r1.reverse()
             return {
-                "rev": [A.obj_to_row(r) for r in r1.rows],
+                "rev_grown": [A.obj_to_row(r) for r in r3.rows],
+                "revrev_grown": [A.obj_to_row(r) for r in r4.rows],
+                "rev1_after": [A.obj_to_row(r) for r in r1.rows],
+                "rev": rev_rows0,
                 "revrev": [A.obj_to_row(r) for r in r2.rows],
-                "length": [sc.length, r1.length],
+                "length": len0,
                 "name_kept": r1.name == "s" and r1.original_name == "o",
-                "orig_untouched": [A.obj_to_row(r) for r in sc.rows] == [list(r) for r in case["rows"]],
+                "orig_untouched": untouched0,
             }
         if k == "revcomp":
             x = case["x"].encode("latin-1")
@@ -99,8 +120,13 @@ class C14(Prop):
         if k == "table":
             return lambda names: "CTable " + listlit(obs["table"], lambda n: f"{n}%N")
         if k == "reverse":
-            return lambda names: f"CReverse {A.rows_term(case['rows'], names)} {A.rows_term(obs['rev'], names)}"
+            grown = [list(r) for r in case["rows"]] + [list(r) for r in case.get("extra", [])]
+            return [lambda names: f"CReverse {A.rows_term(case['rows'], names)} {A.rows_term(obs['rev'], names)}",
+                    lambda names: f"CReverse {A.rows_term(grown, names)} {A.rows_term(obs['rev_grown'], names)}",
+                    lambda names: f"CReverse {A.rows_term(obs['rev1_after'], names)} {A.rows_term(obs['revrev_grown'], names)}"]
         if k == "revcomp":
+            if case.get("long"):
+                return []
             return lambda names: f"CRevcomp {names(case['x'])} {names(obs['rc'])}"
 
         def t(names):
@@ -132,9 +158,19 @@ class C14(Prop):
                 return "reversing twice does not give back the rows"
             if obs["length"][0] != obs["length"][1] or not obs["name_kept"] or not obs["orig_untouched"]:
                 return "reverse changed length/name or mutated the original"
+            rv = lambda rs: [r if r[0] == "G" else [r[0], r[1], r[2], r[3], -r[4], r[5]] for r in reversed(rs)]
+            grown = [list(r) for r in rows] + [list(r) for r in case.get("extra", [])]
+            if obs["rev_grown"] != rv(grown):
+                return f"reverse after adding rows gave {obs['rev_grown']}, expected {rv(grown)}"
+            if obs["revrev_grown"] != rv(obs["rev1_after"]):
+                return "reversing a reversed scaffold that has grown does not reverse its current rows"
             return None
         if k == "revcomp":
             if obs["rc"] != F.revcomp(case["x"]) or obs["rcrc"] != case["x"]:
+                if case.get("long"):
+                    want = F.revcomp(case["x"])
+                    k0 = next((i for i in range(len(want)) if i >= len(obs["rc"]) or obs["rc"][i] != want[i]), None)
+                    return f"reverse_complement of {len(case['x'])} residues is wrong from position {k0}"
                 return f"reverse_complement({case['x']!r}) = {obs['rc']!r}, twice = {obs['rcrc']!r}"
             return None
         if "err" in obs["index"]:
